@@ -89,6 +89,23 @@ def build_joint(cuqi, rs, tmpl):
         roles["__scale__"] = scales; roles["__loc__"] = locs
         dens = [dens[i] for i in rs.permutation(len(dens))]
         return JointDistribution(*dens), roles
+    if tmpl == "G":       # hierarchies a -> b -> x whose consecutive members depend on each other directly
+        if rs.rand() < 0.5:   # two hyper-parameters, the rate of the second is the first
+            a = gam("a")
+            b = Gamma(float(rs.choice([1.0, 2.0, 3.0])), lambda a: a, name="b")
+            x = Gaussian(np.zeros(n), lambda b: 1 / b, name="x")
+            roles = {"a": ("hyper2", 1), "b": ("hyper2", 1), "x": ("latent", n)}
+        else:                 # Gaussian chain through the means
+            k = 2
+            M = rs.randint(-1, 3, size=(n, k)).astype(float)
+            a = Gaussian(np.zeros(k), 1.0, name="a")
+            b = Gaussian(lambda a: a, float(rs.choice([1.0, 0.5])), geometry=k, name="b")
+            x = Gaussian(lambda b: M @ b, 1.0, geometry=n, name="x")
+            roles = {"a": ("mid", k), "b": ("mid", k), "x": ("latent", n)}
+        y = Gaussian(A @ x, float(rs.choice([0.5, 1.0])), name="y")
+        free = [[a, b, x], [b, a, x], [x, a, b], [x, b, a], [a, x, b], [b, x, a]][int(rs.randint(6))]
+        dens = free + [y]
+        return JointDistribution(*dens)(y=data), roles
     if tmpl == "H":       # hyper-parameter in the prior and one in the likelihood
         d, l = gam("d"), gam("l")
         gm = rs.rand() < 0.3
@@ -276,7 +293,7 @@ def tlogd(target, x):
 # ----------------------------------------------------------------------------- experimental
 def run_hybrid(ctx, cuqi, idx, rs, thorough, stats):
     from cuqi.experimental.mcmc import HybridGibbs, NUTS
-    tmpl = ["H", "E", "P", "S", "W", "C", "E"][idx % 7] if idx < 14 else str(rs.choice(["H", "H", "P", "S", "W", "C", "E", "E"]))
+    tmpl = ["H", "E", "P", "S", "W", "C", "G"][idx % 7] if idx < 14 else str(rs.choice(["H", "H", "P", "S", "W", "C", "E", "E", "G"]))
     with quiet():
         post, roles = build_joint(cuqi, rs, tmpl)
     names = list(post.get_parameter_names())
@@ -293,6 +310,10 @@ def run_hybrid(ctx, cuqi, idx, rs, thorough, stats):
     elif u < 0.10:
         from cuqi.experimental.mcmc import MH as _MH
         malformed = "extra"; strategy["q_extra"] = _MH()
+    elif u < 0.14 and len(names) >= 2:
+        # a grouped (tuple) key as in the legacy interface: HybridGibbs looks samplers up by plain name only
+        i = int(rs.randint(len(names) - 1))
+        malformed = "tuplekey"; strategy[(names[i], names[i + 1])] = strategy.pop(names[i]); del strategy[names[i + 1]]
     shared = malformed is not None
     r = rs.rand()
     if r < 0.3:
@@ -330,7 +351,7 @@ def run_hybrid(ctx, cuqi, idx, rs, thorough, stats):
             sid_of[n] = str(objs.index(id(strategy[n])))
         else:
             sid_of[n] = "-"
-    extra_sid = [str(len(objs))] if malformed == "extra" else []
+    extra_sid = [str(len(objs))] if malformed in ("extra", "tuplekey") else []
 
     def hg_line(order, flags_, calls_s, draws_s):
         return "hg {} {} {} {} {} {} {} {}".format(
@@ -635,12 +656,32 @@ def compare_hybrid(ctx, K, desc, out, events, draws, snapshots, par_names, post,
 # ----------------------------------------------------------------------------- legacy
 def run_legacy(ctx, cuqi, idx, rs, thorough, stats):
     import cuqi.sampler as LS
-    tmpl = ["H", "P", "S", "W", "C", "E"][idx % 6] if idx < 12 else str(rs.choice(["H", "H", "P", "S", "W", "C", "E"]))
+    tmpl = ["H", "G", "S", "W", "C", "E", "G", "P"][idx % 8] if idx < 16 else str(rs.choice(["H", "H", "P", "S", "W", "C", "E", "G", "G"]))
     with quiet():
         post, roles = build_joint(cuqi, rs, tmpl)
     names = list(post.get_parameter_names())
     scales = roles.get("__scale__", {})
     chosen = {n: (legacy_factory_E(cuqi, rs, roles, n) if tmpl == "E" else legacy_factory(cuqi, rs, roles[n][0])) for n in names}
+    # tuple keys: one sampler class for several blocks (each member is still its own block)
+    groups = []
+    if tmpl == "G":
+        opts = [[("a", "b")], [("b", "x")], [("a", "b", "x")], [("a", "x")], [("b", "a")], [("x", "b", "a")], []]
+        for grp in opts[int(rs.randint(len(opts)))]:
+            sc = 0.05 if any(roles[m][0] in ("hyper", "hyper2") for m in grp) else 0.3
+            fac = (lambda target, sc=sc: LS.MH(target, scale=sc))
+            for m in grp:
+                chosen[m] = ("MH", fac)
+            groups.append(tuple(grp))
+    elif tmpl == "E" and rs.rand() < 0.5:
+        src = [n for n in names if roles[n][0] == "tiny"]
+        leaf = {"a": "b", "c": "e", "u": "v"}[src[0]]
+        chosen[leaf] = chosen[src[0]]          # the dependent block shares the source's (tiny-scale) MH
+        groups.append((src[0], leaf) if rs.rand() < 0.5 else (leaf, src[0]))
+    else:
+        same = [n for n in names if chosen[n][0] == "Conjugate"]
+        if len(same) >= 2 and rs.rand() < 0.5:
+            groups.append(tuple(same))
+    grouped = {m for g_ in groups for m in g_}
     classes = {n: chosen[n][0] for n in names}
     # init_point attributes on some densities
     ipts = {}
@@ -668,7 +709,8 @@ def run_legacy(ctx, cuqi, idx, rs, thorough, stats):
         calls = [(0, 0), (int(rs.randint(1, 4)), 0)]
     else:
         calls = [(int(rs.randint(1, 4)), 0), (int(rs.randint(1, 4)), 0), (int(rs.randint(1, 3)), 0)]
-    desc = {"iface": "legacy Gibbs", "template": tmpl, "names": names, "samplers": classes, "calls": calls, "scenario": idx,
+    desc = {"iface": "legacy Gibbs", "template": tmpl, "names": names, "samplers": classes, "tuple_keys": [list(g_) for g_ in groups],
+            "calls": calls, "scenario": idx,
             "init_point": {n: v.tolist() for n, v in ipts.items()}}
     kind = "legacy:" + tmpl
     K = "Gibbs"
@@ -687,9 +729,20 @@ def run_legacy(ctx, cuqi, idx, rs, thorough, stats):
             self.n, self.inner, self.target = n, inner, target
 
         def step(self, x):
-            n = self.n
             x0 = vec(x).copy()
             oth = rec.others_of(self.target)
+            n = self.n
+            if n is None:           # built through a tuple key: the block is the parameter the target leaves free
+                rest = [m for m in par_names if oth is not None and m not in oth]
+                if len(rest) == 1:
+                    n = rest[0]
+                else:
+                    pn = list(self.target.get_parameter_names())
+                    n = pn[0] if len(pn) == 1 else None
+                if n is None:
+                    raise RuntimeError("cannot tell which block a grouped sampler was built for")
+                self.n = n
+                stats["grouped_steps"] = stats.get("grouped_steps", 0) + 1
             if cur:
                 expected = {m: cur[m] for m in par_names if m != n}
                 if not np.array_equal(x0, cur[n]):
@@ -726,7 +779,12 @@ def run_legacy(ctx, cuqi, idx, rs, thorough, stats):
 
     try:
         with quiet():
-            G = LS.Gibbs(post, {n: factory(n) for n in names})
+            strat = {n: factory(n) for n in names if n not in grouped}
+            for g_ in groups:
+                strat[g_] = (lambda target, f=chosen[g_[0]][1]: Proxy(None, f(target), target))
+            keys = list(strat)
+            strat = {k: strat[k] for k in [keys[i] for i in rs.permutation(len(keys))]}
+            G = LS.Gibbs(post, strat)
     except Exception as e:
         ctx.case(kind + ":refused", desc, nontrivial=False)
         ctx.fail(f"{K}:crash:construct", desc, "a sampler over all blocks", "raises " + type(e).__name__,
